@@ -113,7 +113,18 @@ TEXT_CASES = {
 }
 
 
+C11_CASES = {
+    ("C11", "sort-comparator-raises", "819016f"):
+        [("try", [("print", ("call", ("prop", ("list", [N(3), N(1), N(2)]), "sort"),
+                             [("lambda", ["a", "b"], ("block", [("raise", ERR("cmp"))]))]))],
+          [("e", None, [("print", ("prop", V("e"), "message"))])]),
+         ("print", S("end"))],
+}
+
+
 def main():
+    for (pid, name, commit), prog in C11_CASES.items():
+        write(pid, name, commit, (tuple([("kind", "list")] + prog), 0))
     for (pid, name, commit), prog in C14_CASES.items():
         write(pid, name, commit, (("gen", "regression", prog), 0))
         write(pid, name + "-rel", commit, (("gen", "regression", prog), 1))
